@@ -435,10 +435,25 @@ func runListener(c LCase, r *pbt.R) {
 			hops[i].via = hops[j]
 			hops[i].mu.Unlock()
 			moved = true
-		case "junk":
-			// unauthenticated record with client i's server-side ID from a fresh socket
+		case "junk", "bigjunk":
+			// unauthenticated record with client i's server-side ID from a fresh socket; bigjunk: a datagram
+			// larger than the connection's 8192-byte read buffer
 			ids := env.CIDs["S"]
-			if i < len(ids) {
+			if i < len(ids) && kind == "bigjunk" {
+				if s, err := net.DialUDP("udp4", nil, ln.Addr().(*net.UDPAddr)); err == nil { //nolint:forcetypeassert
+					var d []byte
+					if c.Ver == 13 {
+						d = append([]byte{0x3f}, ids[i]...)
+						d = append(d, 0, 9, 0x23, 0x28)
+					} else {
+						d = append([]byte{25, 0xfe, 0xfd, 0, 1, 0, 0, 0, 0, 0x7f, 0xfe}, ids[i]...)
+						d = append(d, 0x23, 0x28)
+					}
+					d = append(d, make([]byte, 9000)...)
+					_, _ = s.Write(d)
+					_ = s.Close()
+				}
+			} else if i < len(ids) {
 				s, err := net.DialUDP("udp4", nil, ln.Addr().(*net.UDPAddr)) //nolint:forcetypeassert
 				if err == nil {
 					var d []byte
@@ -548,7 +563,7 @@ func genListener(t *rapid.T) LCase {
 	n := rapid.IntRange(1, 8).Draw(t, "n")
 	for s := 0; s < n; s++ {
 		c.Steps = append(c.Steps, LStep{
-			K: rapid.SampledFrom([]string{"write", "hop", "hop", "via", "via", "reply", "junk"}).Draw(t, "k"),
+			K: rapid.SampledFrom([]string{"write", "hop", "hop", "via", "via", "reply", "junk", "bigjunk"}).Draw(t, "k"),
 			I: rapid.IntRange(0, c.K-1).Draw(t, "i"), J: rapid.IntRange(0, c.K-1).Draw(t, "j"),
 		})
 	}
